@@ -711,6 +711,18 @@ def _callsite_strings(repo, func, depth=0):
                     continue
                 ok = False
                 break
+            if isinstance(arg, ast.Name) and arg.id not in caller.params:
+                # a local of the caller bound once, just before, to a constant-foldable string (f-string over module constants)
+                from .pyutil import nearest_assignment
+                from .consts import module_consts
+                v_ = nearest_assignment(caller.node, arg.id, call)
+                if v_ is not None:
+                    try:
+                        folded = evaluate(v_, dict(module_consts(caller.module, repo)))
+                    except Exception:  # noqa: BLE001
+                        folded = None
+                    if isinstance(folded, str):
+                        arg = ast.Constant(value=folded)
             if isinstance(arg, ast.Constant) and isinstance(arg.value, str):
                 vals.add(arg.value)
             elif isinstance(arg, ast.Name) and arg.id in caller.params and depth < 2:
@@ -775,6 +787,9 @@ def _string_params_used_in_sql(func):
             for k in n.keywords:
                 if isinstance(k.value, ast.Name) and k.value.id in params:
                     used.add(k.value.id)
+        elif isinstance(n, ast.Call) and isinstance(n.func, ast.Attribute) and n.func.attr in EXEC_ATTRS and n.args \
+                and isinstance(n.args[0], ast.Name) and n.args[0].id in params:
+            used.add(n.args[0].id)      # the statement text itself is a parameter: bound from the call sites
     return used
 
 
